@@ -8,6 +8,7 @@ import os, re, json, subprocess, time, glob, shutil
 from workspace import VERIF, CACHE, ToolError, env_offline
 
 KDIR = os.path.join(VERIF, "kani")
+KANI_POOL = int(os.environ.get("VERIF_KANI_POOL", "3"))     # concurrent checks each get their own Kani target directory (built on first use)
 TABLE = os.path.join(KDIR, "harnesses.json")
 
 
@@ -37,6 +38,63 @@ def overlay(sc):
         sc.overlay_lines[rel] = orig.count(b"\n") + 1
     # the crate forbids unsafe; harnesses use none. Cargo.lock is part of the tree.
     return done
+
+
+class target_lock:
+    """Exclusive use of a shared cargo target directory for one build-and-run.
+
+    Cargo decides freshness by comparing source mtimes with the time of the last build in that target directory, and its fingerprint
+    does not depend on where the package lives.  Two checks running at the same time (or a scratch copy whose files are older than the
+    previous build) could therefore be handed each other's binary - a clean tree judged by a patched tree's test binary and vice versa
+    (observed: DESIGN.md 11.6).  Under this lock the sources are stamped with the current time before cargo runs, so cargo always
+    rebuilds the crate under test from exactly this scratch copy, and nobody else builds into the directory meanwhile."""
+    def __init__(self, tdir, roots, pool=1):
+        self.base = tdir
+        self.tdir = tdir
+        self.roots = roots
+        self.pool = pool
+    def __enter__(self):
+        import fcntl
+        os.makedirs(CACHE, exist_ok=True)
+        # a small pool of target directories (<tdir>, <tdir>-p2, ...): take the first free one, else wait for the first
+        names = [self.base] + ["%s-p%d" % (self.base, k) for k in range(2, self.pool + 1)]
+        self.f = None
+        for n in names:
+            f = open(os.path.join(CACHE, n + ".lock"), "w")
+            try:
+                fcntl.flock(f, fcntl.LOCK_EX | fcntl.LOCK_NB)
+                self.f, self.tdir = f, n
+                break
+            except OSError:
+                f.close()
+        if self.f is None:
+            self.f = open(os.path.join(CACHE, names[0] + ".lock"), "w")
+            fcntl.flock(self.f, fcntl.LOCK_EX)
+            self.tdir = names[0]
+        now = time.time()
+        for root in self.roots:
+            for d, dirs, files in os.walk(root):
+                if "target" in dirs:
+                    dirs.remove("target")
+                for fn in files:
+                    if fn.endswith((".rs", ".toml", ".lock")):
+                        try:
+                            os.utime(os.path.join(d, fn), (now, now))
+                        except OSError:
+                            pass
+        return self
+    def __exit__(self, *a):
+        import fcntl
+        fcntl.flock(self.f, fcntl.LOCK_UN)
+        self.f.close()
+
+
+def _roots(sc, cwd=None):
+    r = [sc.repo]
+    ext = os.path.join(sc.dir, "ext")
+    if os.path.isdir(ext):
+        r.append(ext)
+    return r
 
 
 def _env(sc):
@@ -126,17 +184,20 @@ def run_group(sc, names, stubbing, jobs, timeout, log, cwd=None, tdir="target-ka
     import signal
     env = _env(sc)
     env["CARGO_TARGET_DIR"] = os.path.join(CACHE, tdir)
-    proc = subprocess.Popen(cmd, cwd=cwd or sc.repo, env=env, stdout=subprocess.PIPE, stderr=subprocess.STDOUT, text=True, start_new_session=True)
-    try:
-        out, _ = proc.communicate(timeout=timeout)
-        timed_out = False
-    except subprocess.TimeoutExpired:
-        timed_out = True
+    with target_lock(tdir, _roots(sc), pool=KANI_POOL) as lk:
+        t0 = time.time()
+        env["CARGO_TARGET_DIR"] = os.path.join(CACHE, lk.tdir)
+        proc = subprocess.Popen(cmd, cwd=cwd or sc.repo, env=env, stdout=subprocess.PIPE, stderr=subprocess.STDOUT, text=True, start_new_session=True)
         try:
-            os.killpg(proc.pid, signal.SIGKILL)
-        except Exception:
-            pass
-        out, _ = proc.communicate()
+            out, _ = proc.communicate(timeout=timeout)
+            timed_out = False
+        except subprocess.TimeoutExpired:
+            timed_out = True
+            try:
+                os.killpg(proc.pid, signal.SIGKILL)
+            except Exception:
+                pass
+            out, _ = proc.communicate()
     log.setdefault("kani_cmds", []).append(" ".join(cmd))
     log["kani_s"] = round(log.get("kani_s", 0) + time.time() - t0, 1)
     if "error: could not compile" in out or "error[E" in out:
@@ -151,17 +212,19 @@ def _playback_tests(sc, name, stubbing, timeout, cwd, tdir):
     import signal
     env = _env(sc)
     env["CARGO_TARGET_DIR"] = os.path.join(CACHE, tdir)
-    proc = subprocess.Popen(cmd, cwd=cwd or sc.repo, env=env, stdout=subprocess.PIPE, stderr=subprocess.STDOUT, text=True, start_new_session=True)
-    try:
-        stdout, _ = proc.communicate(timeout=timeout)
-    except subprocess.TimeoutExpired:
-        # kill the whole group: cbmc is a grandchild and would otherwise keep running
+    with target_lock(tdir, _roots(sc), pool=KANI_POOL) as lk:
+        env["CARGO_TARGET_DIR"] = os.path.join(CACHE, lk.tdir)
+        proc = subprocess.Popen(cmd, cwd=cwd or sc.repo, env=env, stdout=subprocess.PIPE, stderr=subprocess.STDOUT, text=True, start_new_session=True)
         try:
-            os.killpg(proc.pid, signal.SIGKILL)
-        except Exception:
-            pass
-        proc.communicate()
-        return []
+            stdout, _ = proc.communicate(timeout=timeout)
+        except subprocess.TimeoutExpired:
+            # kill the whole group: cbmc is a grandchild and would otherwise keep running
+            try:
+                os.killpg(proc.pid, signal.SIGKILL)
+            except Exception:
+                pass
+            proc.communicate()
+            return []
     class _P: pass
     p = _P(); p.stdout = stdout
     tests = []      # (kind, message, vals)
@@ -203,7 +266,8 @@ def native_replay(sc, test, input_hex, log):
     env["RUSTFLAGS"] = "--cfg gtker_wow_srp_verif"
     env["VERIF_REPLAY_INPUT"] = input_hex
     cmd = ["cargo", "test", "--offline", "--lib", "--features", "matrix-card", test, "--", "--nocapture", "--test-threads", "1"]
-    p = subprocess.run(cmd, cwd=sc.repo, env=env, stdout=subprocess.PIPE, stderr=subprocess.STDOUT, text=True, timeout=900)
+    with target_lock("target-replay", [sc.repo]):
+        p = subprocess.run(cmd, cwd=sc.repo, env=env, stdout=subprocess.PIPE, stderr=subprocess.STDOUT, text=True, timeout=900)
     out = p.stdout
     lines = [l[l.index("REPLAY"):] for l in out.split("\n") if "REPLAY" in l]
     return {"cmd": "VERIF_REPLAY_INPUT=%s RUSTFLAGS='--cfg gtker_wow_srp_verif' %s" % (input_hex, " ".join(cmd)),
@@ -411,5 +475,6 @@ def warm(sc, log):
     overlay(sc)
     cmd = ["cargo", "kani", "--exact", "--harness", "key::verif_kani::c04_from_le_bytes", "--output-format=terse"]
     t0 = time.time()
-    p = subprocess.run(cmd, cwd=sc.repo, env=_env(sc), stdout=subprocess.PIPE, stderr=subprocess.STDOUT, text=True, timeout=1800)
+    with target_lock("target-kani", [sc.repo]):
+        p = subprocess.run(cmd, cwd=sc.repo, env=_env(sc), stdout=subprocess.PIPE, stderr=subprocess.STDOUT, text=True, timeout=1800)
     print("kani warm-up %.1fs rc=%d" % (time.time() - t0, p.returncode))
